@@ -1,7 +1,7 @@
 (* C01 — every generated library is importable Python with the requested clients.  PARTIAL: proved here are the
    transport/client gating facts over the regenerated template list; that each template renders to importable Python
    for every schema is only exercised by the harness (see DESIGN.md 6.1 and 10). *)
-From GV Require Import Base.Str Gen.Templates Model.Render Proofs.Render.
+From GV Require Import Base.Str Gen.Templates Model.Render Proofs.Render Model.Files Proofs.Files Model.Imports Proofs.Imports.
 
 (* for every supported option set: every intra-package import printed by an emitted service module targets an emitted
    module, and every transport class the registry offers has its module emitted *)
@@ -25,6 +25,51 @@ Print Assumptions C01_clients_spec.
 Theorem C01_async_rest_without_grpc_refuted : exists o, o_grpc o || o_rest o = true /\ imports_closed o = false.
 Proof. exact async_rest_without_grpc_refuted. Qed.
 Print Assumptions C01_async_rest_without_grpc_refuted.
+
+(* ---- import statements computed from addresses (metadata.Address.python_import) ----
+   A type belongs to the API being generated when its package is the API package or one of its sub-packages, by segments ... *)
+Theorem C01_in_api_segmentwise : forall n a,
+  in_api n a = true <-> api_pkg n = [] \/ exists rest, a_pkg a = (api_pkg n ++ rest)%list.
+Proof. exact in_api_segmentwise. Qed.
+Print Assumptions C01_in_api_segmentwise.
+
+(* ... not when the dotted names merely share a textual prefix (foo.v1 / foo.v1beta1) *)
+Theorem C01_in_api_textual_refuted : exists n a, in_api_textual n a = true /\ in_api n a = false.
+Proof. exact in_api_textual_refuted. Qed.
+Print Assumptions C01_in_api_textual_refuted.
+
+(* an in-package import resolves to <namespace>/<name_version>/<sub-package>/types/<module>.py ... *)
+Theorem C01_in_api_import_file : forall n a,
+  in_api n a = true ->
+  import_file n a =
+    (sjoin "/" (mod_ns n ++ [vmod n]) ++ "/" ++
+     (match subpackage n a with [] => "" | sub => sjoin "/" sub ++ "/" end) ++ "types/" ++ a_mod a ++ ".py")%string.
+Proof. exact in_api_import_file. Qed.
+Print Assumptions C01_in_api_import_file.
+
+(* ... which is the file the generator emits for the types module of that proto file (the placement theorem of C11), for proto
+   sub-packages of any depth: every import of a type of the API itself targets an emitted module *)
+Theorem C01_in_api_import_targets_emitted_types_module : forall ra old n u a,
+  wf_rapi ra old -> In u (ra_protos ra) ->
+  root_of ra = sjoin "/" (mod_ns n ++ [vmod n]) ->
+  a_pkg a = (api_pkg n ++ u_sub u)%list -> a_mod a = u_module u ->
+  import_file n a = inst_name ra (mk_inst types_tpl (u_sub u) None (Some (u_module u))).
+Proof. exact in_api_import_targets_emitted_types_module. Qed.
+Print Assumptions C01_in_api_import_targets_emitted_types_module.
+
+Theorem C01_dependency_import : forall n a,
+  in_api n a = false -> existsb (list_eqb String.eqb (a_pkg a)) (ppdeps n) = false ->
+  import_of n a = (a_pkg a, (a_mod a ++ "_pb2")%string).
+Proof. exact dependency_import. Qed.
+Print Assumptions C01_dependency_import.
+
+Example C01_imports_nontrivial :
+  let n := {| api_pkg := ["google"; "example"; "v1"]; mod_ns := ["google"]; vmod := "example_v1"; ppdeps := [["google"; "dep"; "v2"]] |} in
+  import_file n {| a_pkg := ["google"; "example"; "v1"; "admin"; "deep"]; a_mod := "common" |} = "google/example_v1/admin/deep/types/common.py"
+  /\ import_of n {| a_pkg := ["google"; "example"; "v1beta1"]; a_mod := "common" |} = (["google"; "example"; "v1beta1"], "common_pb2")
+  /\ import_of n {| a_pkg := ["google"; "dep"; "v2"]; a_mod := "money" |} = (["google"; "dep_v2"; "types"], "money").
+Proof. vm_compute. repeat split; reflexivity. Qed.
+Print Assumptions C01_imports_nontrivial.
 
 Example C01_nontrivial :
   emitted_modules {| o_grpc := false; o_rest := true; o_rest_async := false |}
